@@ -24,7 +24,7 @@ RULE = ('perm: random profile, outcome under 3 random permutations of the dictio
 PARTIAL = ['order / renaming / hash-seed independence of the evaluators without a Gallina model here '
            '(STAR, allocated score, Bucklin family, Tideman / Benham ...) are decided per explored case; '
            'proved: order independence of get_n_best, the additive converters, highest averages, the quota family, the STV count and the Condorcet family '
-           '(Schulze and the Smith set for non-negative counts, ranked pairs for pairwise distinct sort keys; Schwartz and ranked pairs with equal strengths refuted); '
+           '(Schulze, the Smith set and the Schwartz set for non-negative counts, ranked pairs for pairwise distinct sort keys; ranked pairs with equal strengths refuted; the prefix routine SchwartzSet ran before the repair fixes/C06-schwartz-set refuted - fixed finding C10-schwartz-order); '
            'renaming equivariance (exact equality, f injective) of the Condorcet family, QuotaDistributor / LargestRemainder / QuotaSelector, the STV count, SPAV, the score '
            'aggregation, ScoreVoting, MajorityJudgment (C10_rename_*); PAV up to the order of equally placed winners for every iteration order of the candidate set '
            '(C10_pav_iteration_order, C10_rename_pav); PAV and SPAV return the same answer for every ballot order (C10_pav_order, C10_spav_order); the score aggregation, ScoreVoting and MajorityJudgment (both tie-breakers) are ballot-order independent up to == scores / the order inside ties (C10_score_to_simple_order, C10_score_voting_order, C10_majority_judgment_order)']
@@ -354,17 +354,11 @@ def exhaustive_small(ctx, stream):
 
 
 def known_class(c, io, mo):
-    """C10-schwartz-order: the Schwartz routine (known finding C06-schwartz) returns a prefix of a stable sort; with
-    pairwise ties among unbeaten groups that prefix depends on the order / names"""
+    """open findings of C10.  (C10-schwartz-order is repaired - fixes/C06-schwartz-set, status fixed: a SchwartzSet outcome
+    that depends on the order / the names is a VIOLATION again; witnesses in corpus/C10/schwartz-*.json)"""
     crashed = lambda x: '"err"' in str(x) or not (str(x).startswith("(('") or str(x).startswith('{'))     # noqa
     if c.get('evaluator') == 'allocated_score' and (crashed(io) or crashed(mo)):
         return 'C10-allocated-score'
-    if c.get('evaluator') == 'schwartz_set':
-        import pairwise as pw
-        cs = pw.cands(c['profile'])
-        cnt = pw.cnt(c['profile'])
-        if any(cnt(a, b) == cnt(b, a) for i, a in enumerate(cs) for b in cs[i + 1:]):
-            return 'C10-schwartz-order'
     return None
 
 
